@@ -35,6 +35,7 @@ type Ctx struct {
 	// scheduler / iteration policy hooks owned by the property code
 	yieldFn    func(site int)
 	blockedFn  func()
+	tempSeq    int
 	mapOrderFn func(site, n int) []int
 	disk       *SimDisk
 }
@@ -214,6 +215,15 @@ func installHooks(c *Ctx) {
 				return nil, os.ErrNotExist
 			}
 			return c.disk.Stat(name)
+		},
+		TempName: func(dir, pattern string) string {
+			simEnter()
+			defer simLeave()
+			c.tempSeq++
+			if i := strings.LastIndexByte(pattern, '*'); i >= 0 {
+				return fmt.Sprintf("%s/%s%06d%s", dir, pattern[:i], c.tempSeq, pattern[i+1:])
+			}
+			return fmt.Sprintf("%s/%s%06d", dir, pattern, c.tempSeq)
 		},
 		RealPath: func(op, name string) (string, error) {
 			simEnter()
